@@ -1,4 +1,5 @@
 """C04 - untrusted wire or text input only ever raises the library's own errors."""
+import gc
 import hashlib
 import json
 import os
@@ -32,11 +33,11 @@ META = {
     "design_ref": "DESIGN.md section 4, C04",
 }
 
-BATCH = 40000  # inputs per driver / validation batch (bounds the memory of a run)
+BATCH = 80000  # inputs per driver / validation batch (bounds the memory of a run)
 
 
 class _RssWatch:
-    """Samples the resident memory of this process and all its descendants (driver workers,
+    """Samples the memory (PSS) of this process and all its descendants (driver workers,
     TLC JVMs) every 2 s; stop() returns the peak in MB.  Evidence only, never a verdict."""
 
     def __init__(self):
@@ -60,9 +61,21 @@ class _RssWatch:
         total, todo = 0, [os.getpid()]
         while todo:
             p = todo.pop()
-            total += rss.get(p, 0)
+            total += _RssWatch._pss(p, rss.get(p, 0))
             todo += kids.get(p, [])
         return total
+
+    @staticmethod
+    def _pss(pid, fallback):
+        """Proportional set size (pages shared with forked workers are counted once)."""
+        try:
+            with open("/proc/%d/smaps_rollup" % pid) as f:
+                for line in f:
+                    if line.startswith("Pss:"):
+                        return int(line.split()[1]) * 1024
+        except (OSError, ValueError, IndexError):
+            pass
+        return fallback
 
     def _run(self):
         while not self.done.wait(2.0):
@@ -222,7 +235,12 @@ def run(ctx):
         but its counters, samples and rejects is kept."""
         for k in range(0, len(jobs), BATCH):
             part = jobs[k:k + BATCH]
-            traces = ctx.pmap(c04_robust.run_job, part)
+            gc.collect()
+            gc.freeze()  # the forked workers then leave the inherited objects alone (no copy-on-write)
+            try:
+                traces = ctx.pmap(c04_robust.run_job, part)
+            finally:
+                gc.unfreeze()
             ctx.evaluations += sum(len(tr["ev"]) for tr in traces)
             for tr in traces:
                 if tr.get("hist") or tr.get("src") == "rnd":
@@ -280,12 +298,12 @@ def run(ctx):
         ctx.extra["random_inputs"] = nrnd
     ctx.extra["entry_point_calls"] = ctx.evaluations
     ctx.extra["outcomes"] = dict(sorted(outs.items(), key=lambda kv: -kv[1])[:60])
-    ctx.extra["peak_rss_mb_process_tree"] = watch.stop()
+    ctx.extra["peak_pss_mb_process_tree"] = watch.stop()
     for tr in samples[:4]:
         ctx.sample({k: v for k, v in tr.items() if k != "ev"} | {"ev": tr["ev"][:2]})
     for sig, n in sorted(sigs.items()):
         ctx.log("rejected %5d  %s" % (n, sig))
-    ctx.log("peak RSS of the process tree: %d MB" % ctx.extra["peak_rss_mb_process_tree"])
+    ctx.log("peak memory (PSS) of the process tree: %d MB" % ctx.extra["peak_pss_mb_process_tree"])
 
 
 def selftest(ctx):
